@@ -108,10 +108,17 @@ def shard_poison(spec, R):
                     case = {"program": name, "dtype": dtype, "cls": cls, "args": [a if not isinstance(a, type) else a.__name__ for a in args]}
                     R.evaluation()
                     R.case(True, "poison", name, dtype, *[a for a in args if not isinstance(a, type)])
+                    pristine = [a.tobytes() if isinstance(a, np.ndarray) else None for a in args]
                     try:
                         with warnings.catch_warnings():
                             warnings.simplefilter("ignore")
                             ref = f(*args)
+                            # repeated calls can only be deterministic when the arguments survive a call untouched
+                            R.count("input_unmodified_checks")
+                            changed = [j for j, (a, b) in enumerate(zip(args, pristine)) if b is not None and a.tobytes() != b]
+                            if changed:
+                                R.violation(f"C14:input-mutated:{name}", f"{name}({dtype}, {cls}): the call modified its input argument(s) {changed} in place", case)
+                                continue
                             if p.kind == "gufunc":
                                 refs = ref if isinstance(ref, tuple) else (ref,)
                                 outs = []
